@@ -475,7 +475,10 @@ def apply_contract(ip: Interp, c, recv, args, kwargs, n):
     for lemma, clause in c.assumed_ensures:
         p.assume(spec_eval_env(ip, clause, env))
         p.used_lemmas.add(lemma)
-    if not p.feasible(z3.BoolVal(True)):
+    # the normal exit of a callee with exceptional exits may be impossible for these arguments: prune such paths early.
+    # (A callee with one exit only cannot contradict the path once its precondition is established; skipping the check there
+    # saves a solver call per call site -- paths that are infeasible for other reasons only yield trivially valid obligations.)
+    if (c.raises or c.propagates) and not p.feasible(z3.BoolVal(True)):
         raise PathEnd()
     return result
 
@@ -664,7 +667,9 @@ def _run_path(ip: Interp, c: Contract, fn: ast.FunctionDef, cls):
                 for clause in c.at_yield:
                     t = sub.truth(sub.ev(ast.parse(clause.strip(), mode='eval').body))
                     ip.p.oblige('yield', t if z3.is_expr(t) else z3.BoolVal(bool(t)), fn, f'when the with-body starts: {clause}', tag='property')
-            apply_contract(ip, gen, None, [ip.env['body'], ip.env['self']], {}, fn)
+            # a generic body contract with a third parameter also receives the value the manager yields (`with m() as x`)
+            extra = [_value] if len(gen.sig) >= 3 else []
+            apply_contract(ip, gen, None, [ip.env['body'], ip.env['self'], *extra], {}, fn)
 
         ip.yield_cb = _cb
     ip._param_mutable = {}
